@@ -12,7 +12,7 @@ FUNCTIONS = ["type_example::rust_value::{example_from_seed (+ policies), ty_exam
 MODELS = c12.MODELS + ["proc_macro2 TokenStream iteration (TokenTree) for omit_generics", "quote runtime"]
 ASSUMPTIONS = ["registries: corpus registries without bit sequences / 256-bit integers; every id; A-rng as in C12 (integer draws symbolic, variant/char/string choices fork)",
                "the example is read by an independent expression reader and compared in lockstep with the registry AND with the item the generator emits for the same id under the same settings (path without generics, field names/arity incl. the marker, literal suffix = primitive kind, tuple/array/vec arity, Compact(..) exactly around explicitly Compact-typed fields)"]
-BOUNDS = {"quick": {"ids": "every id", "paths per (registry, id)": "all draw sequences, capped at 200", "settings": 2}, "thorough": {"paths per (registry, id)": "capped at 2000", "settings": 3}}
+BOUNDS = {"quick": {"ids": "every id", "paths per (registry, id)": "all draw sequences, capped at 60", "settings": 2}, "thorough": {"paths per (registry, id)": "capped at 400", "settings": 3}}
 OUTSIDE = ["bit sequences and 256-bit integers (excluded by the quantifier)", "middlewares are None"]
 GLOBAL_WITNESSES = ("value", "error")
 SETS = [Settings(["compact_path ::parity_scale_codec::Compact", "bits_path ::scale_bits::DecodedBits"]), Settings(["mod_name runtime_types", "compact_path Compact", "bits_path DecodedBits", "alloc ::alloc"]), STD]
@@ -91,7 +91,7 @@ def exact_family(name, reg0, ids, seeds, st):
     return Family(name, mk, run, target_prefixes=16, setup=setup, on_panic=on_panic)
 
 def families(eng, tier, seed):
-    C = corpus(); fams = []; limit = 60 if tier == "quick" else 2000; rnd = random.Random(seed)
+    C = corpus(); fams = []; limit = 60 if tier == "quick" else 400; rnd = random.Random(seed)
     sets = SETS[:2] if tier == "quick" else SETS
     for n, r in C.items():
         if n in SKIP or any(t["def"][0] == "bitseq" or t["def"] in (("primitive", "U256"), ("primitive", "I256")) for t in r): continue
